@@ -110,10 +110,25 @@ def gen_plan(ch: Chooser, tier: str) -> dict[str, Any]:
         rules.append({'match': {'method': 'GET', 'kind': slow, 'watch': False, 'name': None}, 'nth': 1,
                       'action': {'kind': 'delay', 'delay_response': ch.choice([0.5, 2.0, 5.0])}})
     actions.sort(key=lambda a: a['t'])
+    opspec: dict[str, Any] = {'id': 'op1', 'standalone': True, 'settings': settings, 'handlers': handlers}
+    extra: dict[str, Any] = {}
+    if ch.bool(0.4):
+        # several served namespaces: one listing per (kind, namespace), each of which the gate has to wait for
+        served = ['ns-a', 'ns-b']
+        extra['namespaces'] = ['default'] + served
+        opspec['namespaces'] = served
+        home = {(kind, n): ch.choice(served) for kind, ns_ in names.items() for n in ns_}
+        for o in objects:
+            o['ns'] = home[(o['kind'], o['body']['metadata']['name'])]
+        for a in actions:
+            if a['do'] in ('create', 'patch', 'delete'):
+                a['ns'] = home[(a['kind'], a['body']['metadata']['name'] if a['do'] == 'create' else a['name'])]
+        if rules and ch.bool(0.7):
+            rules[0]['nth'] = ch.choice([1, 2])
     return {
         'until': horizon + 30.0,
         'kinds': [{'plural': 'widgets'}, {'plural': 'gadgets'}, {'plural': 'gizmos'}],
-        'operators': [{'id': 'op1', 'standalone': True, 'settings': settings, 'handlers': handlers}],
+        'operators': [opspec], **extra,
         'objects': objects, 'actions': actions,
         'tie_random': ch.bool(0.3),
         'net': {'latency_seed': ch.int(0, 1 << 30), 'lat_lo': 0.001, 'lat_hi': ch.choice([0.005, 0.05, 0.3]),
@@ -223,13 +238,17 @@ def oracle(run: runner.Run, oc: Outcome) -> None:
     indexed_kinds = {h.get('resource', 'widgets') for h in index_specs.values()}
     for inc, first_seq in by_inc.items():
         actor = f'{opid}#{inc}'
+        served_ns = common.spec_of(run, opid).get('namespaces') or [None]
         for kind in indexed_kinds:
-            listed = [e for e in run.sim.trace if e[2] == 'yield' and e[3] == actor and e[4] == kind and e[6] == 'LISTED']
-            if not listed or listed[0][0] > first_seq:
+            all_listed = [e for e in run.sim.trace if e[2] == 'yield' and e[3] == actor and e[4] == kind and e[6] == 'LISTED']
+            firsts = [next((e for e in all_listed if e[5] == ns_), None) for ns_ in served_ns]   # one listing per namespace
+            if any(e is None or e[0] > first_seq for e in firsts):
                 oc.add('C17/gate', 'handler-before-listing',
                        f"a change handler/daemon/timer ran in {actor} (seq {first_seq}) before the initial listing of the "
-                       f"indexed kind {kind} was over", kind=kind)
+                       f"indexed kind {kind} was over"
+                       + (f" in all of {served_ns}" if served_ns != [None] else ''), kind=kind)
                 continue
+            listed = [max([e for e in firsts if e is not None], key=lambda e: e[0])]
             for e in run.sim.trace:
                 if e[2] == 'yield' and e[3] == actor and e[4] == kind and e[6] is None and e[0] < listed[0][0]:
                     uid = e[7]
